@@ -27,7 +27,8 @@ def run_c17(it):
         for (a, b, v) in sc["entries"]:          # v in half units
             matrix[(SYM[a], SYM[b])] = mod * v / S
             sub[a][b] = v
-            sub[b][a] = v
+            if not sc.get("asym"):
+                sub[b][a] = v         # one orientation listed: the library looks the pair up in either order
         subst = alignment.make_substitution_fn(matrix, gap=sc["gap"] / S, opt=sc["opt"])
         gap = -sc["gap"]
     route = "needleman_wunsch[%s]" % sc["kind"]
